@@ -86,21 +86,42 @@ def generate(rng, tier):
                       "via_feature": rng.random() < 0.3})
     # decimal resolutions and bounds (10 ms frames, times written with two or three decimals), as users have them
     for _ in range(3000 if tier == "thorough" else 300):
-        step = rng.choice([0.01, 0.02, 0.016, 0.1, 0.25, 0.005, 0.3])
+        # a third of the cases run under Segment.set_precision(prec) with every time a multiple of the tick
+        # (rounding is then a no-op up to float noise), times on both sides of zero
+        prec = rng.choice([1, 2]) if rng.random() < 0.33 else None
+        step = rng.choice([0.01, 0.02, 0.016, 0.1, 0.25, 0.005, 0.3] if prec is None else
+                          [0.1, 0.25, 0.3, 0.05, 0.2] if prec == 1 else [0.01, 0.02, 0.016, 0.005, 0.1])
         ratio = rng.choice([1, 1, 2, 2.5, 3, 5])
         nlab = rng.randrange(1, 4)
         recs = []
-        t0 = rng.choice([0.0, 0.0, 12.34, -3.3, 100.5])
+        digs = [1, 2, 3] if prec is None else list(range(1, prec + 1))
+        rd = (lambda v: round(v, 2)) if prec is None else (lambda v: round(v, prec))
+        t0 = rng.choice([0.0, 0.0, 12.34, -3.3, 100.5] if prec is None else [-3.3, -2.0, -0.5, -12.3, 0.0, -40.0])
+        t0 = rd(t0) if prec is not None else t0
         for _r in range(rng.randrange(1, 7)):
-            a_ = t0 + round(rng.uniform(0, 40 * step * 10), rng.choice([1, 2, 3]))
-            recs.append([[float(a_).hex(), float(a_ + max(2 * step, round(rng.uniform(step, 60 * step), rng.choice([1, 2, 3])))).hex()],
+            a_ = t0 + round(rng.uniform(0, 40 * step * 10), rng.choice(digs))
+            b_ = a_ + max(2 * step, round(rng.uniform(step, 60 * step), rng.choice(digs)))
+            if prec is not None:
+                a_, b_ = round(a_, prec), round(b_, prec)
+                # at least two ticks long (a one-tick segment is empty or not depending on float noise)
+                if b_ - a_ < max(2 * step, 2.5 * 10.0 ** -prec):
+                    b_ = round(a_ + 2 * step + 3 * 10.0 ** -prec, prec)
+            recs.append([[float(a_).hex(), float(b_).hex()],
                          rng.choice(["_", "x", 0]), ["a", "b", 0][rng.randrange(nlab)]])
         lo = min(float.fromhex(r[0][0]) for r in recs)
         hi = max(float.fromhex(r[0][1]) for r in recs)
         x = rng.random()
-        sup = None if x < 0.4 else [float(lo - round(rng.uniform(0, 1), 2)).hex(), float(hi + round(rng.uniform(0, 1), 2)).hex()] if x < 0.7 \
-            else [float(lo + round(rng.uniform(0, (hi - lo) / 3), 2)).hex(), float(hi - round(rng.uniform(0, (hi - lo) / 3), 2)).hex()]
-        cases.append({"k": "discf", "recs": recs, "sup": sup, "step": float(step).hex(), "dur": float(step * ratio).hex(),
+        sup = None if x < 0.4 else [float(rd(lo - round(rng.uniform(0, 1), 2))).hex(), float(rd(hi + round(rng.uniform(0, 1), 2))).hex()] if x < 0.7 \
+            else [float(rd(lo + round(rng.uniform(0, (hi - lo) / 3), 2))).hex(), float(rd(hi - round(rng.uniform(0, (hi - lo) / 3), 2))).hex()]
+        if sup is not None and float.fromhex(sup[1]) - float.fromhex(sup[0]) < max(2 * step, 2.5 * 10.0 ** -(prec or 9)):
+            sup = None
+        if sup is not None and prec is not None:
+            # an overlap of about one tick between a record and the support is kept or dropped depending on float noise
+            tick = 10.0 ** -prec
+            lo_, hi_ = float.fromhex(sup[0]), float.fromhex(sup[1])
+            if any(-0.5 * tick < min(float.fromhex(r[0][1]), hi_) - max(float.fromhex(r[0][0]), lo_) < 2.5 * tick for r in recs):
+                sup = None
+        cases.append({"k": "discf", "prec": prec, "recs": recs, "sup": sup, "step": float(step).hex(), "dur": float(step * ratio).hex(),
                       "as_window": ratio != 1 or rng.random() < 0.3,
                       "labels": None if rng.random() < 0.7 else rng.sample(["a", "b", 0, "zz"], 4),
                       "duration": None if rng.random() < 0.7 else float(round(rng.uniform(step, 300 * step), 2)).hex()})
@@ -121,7 +142,27 @@ def _odisc(tb, f):
 
 
 def _run_discf(case):
-    """discretize on decimal inputs, judged against the clauses of the property with exact rational arithmetic"""
+    from pyannote.core import Segment
+    from pyannote.core import segment as _segmod
+    if case.get("prec") is None:
+        return _run_discf_(case)
+    saved = (_segmod.AUTO_ROUND_TIME, _segmod.SEGMENT_PRECISION)
+    Segment.set_precision(case["prec"])
+    try:
+        return _run_discf_(case)
+    finally:
+        _segmod.AUTO_ROUND_TIME, _segmod.SEGMENT_PRECISION = saved
+
+
+class _Req:
+    """the times the caller asked for (what was read back from a Segment may already have been rounded)"""
+    def __init__(self, start, end):
+        self.start, self.end = start, end
+
+
+def _run_discf_(case):
+    """discretize on decimal inputs, judged against the clauses of the property with exact rational arithmetic; under a
+    precision the oracle is computed from the requested (on-tick) times, the window start may differ from the request by float noise (1e-9 s)"""
     from fractions import Fraction as Fr
     import numpy as np
     from pyannote.core import Annotation, Segment, SlidingWindow
@@ -141,16 +182,31 @@ def _run_discf(case):
     d = np.asarray(f.data)
     w = f.sliding_window
     fdur = dur if case["as_window"] else step
+    prec = case.get("prec")
     S = kw.get("support") or a.get_timeline().extent()
+    tracks = list(a.itertracks(yield_label=True))
+    if prec is not None:
+        # requested times: rounding them to the tick must be a no-op
+        S = _Req(*map(fl, case["sup"])) if case["sup"] is not None else \
+            _Req(min(fl(r[0][0]) for r in case["recs"]), max(fl(r[0][1]) for r in case["recs"]))
+        assert len(tracks) == len({(tuple(r[0]), repr(r[1])) for r in case["recs"]})
+        want = sorted((fl(r[0][0]), fl(r[0][1])) for r in {(tuple(r[0]), repr(r[1])): r for r in case["recs"]}.values())
+        got = sorted((s.start, s.end) for s, _t, _l in tracks)
+        assert all(abs(g[0] - w_[0]) <= 1e-9 and abs(g[1] - w_[1]) <= 1e-9 for g, w_ in zip(got, want)), \
+            "segments on the precision grid were moved by rounding: %r stored for %r" % (got, want)
+        last = {}
+        for r in case["recs"]:
+            last[(tuple(r[0]), repr(r[1]))] = r
+        tracks = [(_Req(fl(r[0][0]), fl(r[0][1])), r[1], r[2]) for r in last.values()]
     if case["labels"] is not None:
         labels = list(case["labels"])
     else:
         # columns default to the labels present within the support (the annotation is cropped first), in labels() order
         labels = [l for l in a.labels()
                   if any(min(Fr(s.end), Fr(S.end)) - max(Fr(s.start), Fr(S.start)) > Fr(1e-6)
-                         for s, _t, l2 in a.itertracks(yield_label=True) if l2 == l)]
+                         for s, _t, l2 in tracks if l2 == l)]
     ok = d.ndim == 2 and d.shape[1] == len(labels) and list(f.labels) == labels and bool(np.isin(d, (0, 1)).all())
-    ok = ok and w.start == S.start and w.step == step and w.duration == fdur
+    ok = ok and (w.start == S.start if prec is None else abs(w.start - S.start) <= 1e-9) and w.step == step and w.duration == fdur
     N = d.shape[0]
     q = (Fr(fl(case["duration"])) if case["duration"] is not None else Fr(S.end) - Fr(S.start)) / Fr(step)
     if case["duration"] is not None:
@@ -159,7 +215,7 @@ def _run_discf(case):
         ok = ok and abs(Fr(N) - q) <= 1 + Fr(1, 10 ** 9)               # within one frame of extent / step
     st, hs = Fr(step), Fr(fdur) / 2
     for k_, lab in enumerate(labels):
-        segs = sorted((Fr(s.start), Fr(s.end)) for s, _t, l in a.itertracks(yield_label=True) if l == lab)
+        segs = sorted((Fr(s.start), Fr(s.end)) for s, _t, l in tracks if l == lab)
         merged = []
         for x0, x1 in segs:
             if merged and x0 <= merged[-1][1]:
@@ -168,10 +224,12 @@ def _run_discf(case):
                 merged.append([x0, x1])
         inside = [[max(x0, Fr(S.start)), min(x1, Fr(S.end))] for x0, x1 in merged]
         for j in range(N):
-            c = Fr(w.start) + j * st + hs
-            if any(x0 <= c - st and c + st <= x1 for x0, x1 in inside):
+            c = Fr(S.start if prec is not None else w.start) + j * st + hs
+            # under a precision the stored bounds differ from the requested ones by float noise: exact ties are not judged
+            tl_ = Fr(0) if prec is None else Fr(1, 10 ** 9)
+            if any(x0 + tl_ <= c - st and c + st + tl_ <= x1 for x0, x1 in inside):
                 ok = ok and d[j, k_] == 1
-            elif all(c + st <= x0 or x1 <= c - st for x0, x1 in merged):
+            elif all(c + st + tl_ <= x0 or x1 + tl_ <= c - st for x0, x1 in merged):
                 ok = ok and d[j, k_] == 0
     return {"ok": bool(ok), "n": int(N)}
 
